@@ -58,6 +58,8 @@ def frames_for(setname):
         seed(3, 3, (3, 3, 3, 3, 1, 1), ()); seed(3, 3, (1, 1, 3, 3, 3, 3), ()); seed(2, 3, (2, 3, 2, 1), ()); seed(2, 3, (1, 2, 3, 2), ())
         for v in sorted(set(itertools.permutations((3, 1, 3, 1)))): seed(2, 4, v, ())
         seed(3, 3, (2, 2, 2, 2, 2, 2), ())
+        # dense ambiguous grammars with the error symbol (default-limit witnesses)
+        seed(1, 1, (2, 3, 1, 1), ((3, 0),)); seed(1, 1, (2, 3, 1, 2), ((3, 1),)); seed(1, 2, (2, 3, 1, 1), ((3, 0),)); seed(1, 1, (3, 2, 1, 1), ((2, 0),)); seed(1, 1, (2, 1, 1), ((2, 0),)); seed(1, 1, (3, 1, 1), ((2, 0),)); seed(2, 1, (2, 3, 1, 1), ((3, 0),))
     if setname == 'big':   # realistic grammars (JSON, layered expression grammar, operator grammar with 3 precedence levels, statements with recovery)
         seed(6, 11, (1, 1, 1, 1, 1, 1, 1, 2, 3, 1, 3, 3, 2, 3, 1, 3), ())
         seed(6, 9, (3, 3, 1, 3, 3, 1, 2, 1, 3, 1, 4, 0, 1, 1, 3), ())
